@@ -169,6 +169,9 @@ class ConcurrentExecutor(ABC, Generic[CallableType, ResultType]):
         # Event-driven state tracking for when the executor is done
         self._completion_event = threading.Event()
         self._suspend_exception: SuspendExecution | None = None
+        # Set when a branch (or the timer thread) hits a non-Exception BaseException such as
+        # BackgroundThreadError: the executor must stop waiting and re-raise it to the caller.
+        self._fatal_exception: BaseException | None = None
 
         # ExecutionCounters will keep track of completion criteria and on-going counters
         min_successful = self.completion_config.min_successful or len(self.executables)
@@ -209,10 +212,18 @@ class ConcurrentExecutor(ABC, Generic[CallableType, ResultType]):
         ]
         self._completion_event.clear()
         self._suspend_exception = None
+        self._fatal_exception = None
 
         def resubmitter(executable_with_state: ExecutableWithState) -> None:
             """Resubmit a timed suspended task."""
-            execution_state.create_checkpoint()
+            try:
+                execution_state.create_checkpoint()
+            except BaseException as e:  # noqa: BLE001
+                # e.g. BackgroundThreadError: checkpointing is broken. This runs on the timer
+                # thread, so hand the failure to the thread blocked in execute().
+                self._fatal_exception = e
+                self._completion_event.set()
+                return
             submit_task(executable_with_state)
 
         thread_executor = ThreadPoolExecutor(max_workers=max_workers)
@@ -245,6 +256,10 @@ class ConcurrentExecutor(ABC, Generic[CallableType, ResultType]):
                 # Cancel futures that haven't started yet
                 for future in futures:
                     future.cancel()
+
+                # A branch died of a BaseException (e.g. checkpointing failed): propagate it.
+                if self._fatal_exception is not None:
+                    raise self._fatal_exception
 
                 # Suspend execution if everything done and at least one of the tasks raised a suspend exception.
                 if self._suspend_exception:
@@ -331,6 +346,12 @@ class ConcurrentExecutor(ABC, Generic[CallableType, ResultType]):
         except Exception as e:  # noqa: BLE001
             exe_state.fail(e)
             self.counters.fail_task()
+        except BaseException as e:  # noqa: BLE001
+            # BackgroundThreadError and friends derive from BaseException. Letting one escape a
+            # done-callback kills the pool worker and nobody would ever set the completion event.
+            self._fatal_exception = e
+            self._completion_event.set()
+            return
 
         # Check if execution should complete or suspend
         if self.counters.should_complete():
